@@ -97,6 +97,12 @@ func (rn *runner) genStep() {
 	}
 	u := r.Intn(4)
 	v := r.Intn(nVals)
+	// in a real block the BeginBlocker has allocated the previous block's fees before the
+	// transactions run: sometimes give the validator pending rewards before a message, so that
+	// x/distribution's delegation hooks pay them to the module account inside the message
+	if d.Cells[v].B != nil && r.Chance(1, 5) {
+		rn.allocate(v, rn.fees())
+	}
 	switch x := r.Intn(100); {
 	case x < 28: // delegate
 		rn.do(op{Kind: kDelegate, U: u, V: v, Amt: rn.amount()}, "gen")
@@ -275,4 +281,24 @@ func (rn *runner) genPure() {
 	rn.st.Count("pure:" + kind)
 	rn.st.Evaluations++
 	rn.st.Info(map[string]any{"pure": term})
+}
+
+// allocate gives validator v pending distribution rewards, funded by the funder account.
+func (rn *runner) allocate(v int, cs sdk.Coins) {
+	if cs.IsZero() {
+		return
+	}
+	h := rn.w.h
+	ctx := h.Ctx()
+	if err := h.App.BankKeeper.SendCoinsFromAccountToModule(ctx, h.Accts[funder].Addr, "distribution", cs); err != nil {
+		panic(err)
+	}
+	val, err := h.App.StakingKeeper.GetValidator(ctx, rn.w.valb[v])
+	if err != nil {
+		panic(err)
+	}
+	if err := h.App.DistrKeeper.AllocateTokensToValidator(ctx, val, sdk.NewDecCoinsFromCoins(cs...)); err != nil {
+		panic(err)
+	}
+	rn.st.Count("pending-rewards-before-message")
 }
